@@ -32,6 +32,8 @@ type Commander struct {
 	lastTXID   *big.Int
 	referencer *Referencer
 	mu         sync.Mutex
+	// appendMu serialises "allocate ids, chain, hand off to the batcher"
+	appendMu sync.Mutex
 
 	lastLog *ledger.ChainedLog
 	monitor bus.Monitor
@@ -143,20 +145,23 @@ func (commander *Commander) exec(ctx context.Context, parameters Parameters, scr
 			return nil, nil, NewErrNoPostings()
 		}
 
-		tx := ledger.NewTransaction().
-			WithPostings(result.Postings...).
-			WithMetadata(result.Metadata).
-			WithDate(script.Timestamp).
-			WithID(commander.nextTXID(parameters.DryRun)).
-			WithReference(script.Reference)
-		verifhook.Yield(ctx, "exec.txid")
+		// The transaction id is allocated in the same critical section that chains
+		// the log and hands it to the batcher (see appendLog).
+		chainedLog, done, err := executionContext.appendLog(ctx, func() *ledger.Log {
+			tx := ledger.NewTransaction().
+				WithPostings(result.Postings...).
+				WithMetadata(result.Metadata).
+				WithDate(script.Timestamp).
+				WithID(commander.nextTXID(parameters.DryRun)).
+				WithReference(script.Reference)
+			verifhook.Yield(ctx, "exec.txid")
 
-		log := logComputer(tx, result.AccountMetadata)
-		if parameters.IdempotencyKey != "" {
-			log = log.WithIdempotencyKey(parameters.IdempotencyKey)
-		}
-
-		chainedLog, done, err := executionContext.AppendLog(ctx, log)
+			log := logComputer(tx, result.AccountMetadata)
+			if parameters.IdempotencyKey != "" {
+				log = log.WithIdempotencyKey(parameters.IdempotencyKey)
+			}
+			return log
+		})
 		if err != nil {
 			return nil, nil, err
 		}
